@@ -3,6 +3,7 @@ import Mathlib.Tactic.Linarith
 import Mathlib.Tactic.FieldSimp
 import Mathlib.Algebra.Order.Field.Basic
 import IndicatifModel.Model.Format
+import IndicatifModel.Proofs.GenBridgeFmt
 /-!
 # C15 — Human-readable formatters (integer parts)
 -/
@@ -260,5 +261,16 @@ end pfx
 example : humanDurationCount (89 * NS + 499999999) = (5, 89) ∧ humanDurationCount (89 * NS + 500000000) = (4, 2) ∧
     humanDurationCount YEAR = (1, 52) := by
   refine ⟨by decide +kernel, by decide +kernel, by decide +kernel⟩
+
+/-- **the source as translated** (`tools/rs2lean.py`, regenerated on every run): `<FormattedDuration as Display>::fmt`
+writes exactly the model's text for every number of whole seconds (`{x}` / `{x:02}` read as decimal digits, zero-padded),
+and the model's `UNITS` table is the source's: same units, names, short names and order -/
+theorem C15_source_formatted_duration_and_units :
+    (∀ secs, GenBridge.renderPieces (Generated.formattedDuration secs) = formattedDuration secs) ∧
+    units = Generated.units.map (fun r => (r.1 * NS, r.2.1, r.2.2)) :=
+  ⟨GenBridge.formattedDuration_eq, GenBridge.units_eq⟩
+
+/-- non-vacuity: 100 days and one second, written by the translated function -/
+example : GenBridge.renderPieces (Generated.formattedDuration 8640001) = "100d 00:00:01".toList := by decide +kernel
 
 end IndicatifModel.Format
